@@ -579,7 +579,7 @@ def _formula_to_format(
         string += sup(token)
     if len(parts) > 4:
         raise ValueError("Incorrect formula")
-    pre_str = "".join(map(lambda x: _subs(x, prefixes), parts[2]))
+    pre_str = "".join(map(lambda x: prefixes[x], parts[2]))
     return pre_str + string + "".join(parts[3])
 
 
